@@ -199,6 +199,10 @@ class Checker:
                 self.cmp("db.Convert[%s](ndarray)" % name, case, Convert(key, u, v, numpy.array(xs, dtype=numpy.float64)), want, S)
                 self.cmp("db.Convert[%s](ndarray int64)" % name, case, Convert(key, u, v, numpy.array(ints, dtype=numpy.int64)), wint, Sint)
                 self.cmp("db.Convert[%s](list of int)" % name, case, Convert(key, u, v, list(ints)), wint, Sint)
+                # numpy number scalars are numbers (they turn up inside tuples the library builds itself)
+                self.cmp("db.Convert[%s](numpy.int64)" % name, case, [Convert(key, u, v, numpy.int64(i)) for i in ints], wint, Sint)
+                self.cmp("db.Convert[%s](numpy.float64)" % name, case, [Convert(key, u, v, numpy.float64(x)) for x in xs], want, S)
+                self.cmp("db.Convert[%s](tuple of numpy.int64)" % name, case, Convert(key, u, v, tuple(numpy.int64(i) for i in ints)), wint, Sint)
                 self.cmp("db.Convert[%s](exponent form,float)" % name, case, [Convert(key, [(u, 1)], [(v, 1)], x) for x in xs], want, S)
                 self.cmp("db.Convert[%s](exponent form,list)" % name, case, Convert(key, [(u, 1)], [(v, 1)], list(xs)), want, S)
                 self.cmp("db.Convert[%s](exponent form,ndarray)" % name, case, Convert(key, [(u, 1)], [(v, 1)], numpy.array(xs)), want, S)
